@@ -64,10 +64,10 @@ def reset_monitor():
     _mon["iters"] = 0
 
 
-def fast_case(spec, recipe, w, warm=None):
+def fast_case(spec, recipe, w, warm=None, backend="cbc"):
     install_monitor()
     reset_monitor()
-    obs = A.eval_case(spec, recipe, "cbc", "fast", w, warm=warm)
+    obs = A.eval_case(spec, recipe, backend if A.cbc_available() else "glpk_noimport", "fast", w, warm=warm)
     obs["iters"] = _mon["iters"]
     return obs
 
@@ -202,6 +202,19 @@ def run(task):
                                               "sig": h([msg.split(':')[0][:40], m, n, w, i // 20])})
                     continue
                 k = len(res["state_set"])
+                if k % 4 == 1:
+                    # every window's alignment goes through the MIP: the fall-back back-end must give a partition too
+                    be = "glpk_noimport" if k % 8 == 1 else "glpk_error"
+                    obs3 = fast_case(spec, recipe, w, backend=be)
+                    res["evaluations"] += 1
+                    res["transitions"] += max(1, obs3["iters"])
+                    res["traces"] += 1
+                    msg3 = judge(spec, recipe, w, obs3, opt)
+                    if msg3:
+                        res["violations"].append({"msg": msg3 + f" [solver configuration {be}]",
+                                                  "case": {"spec": spec, "recipe": recipe, "w": w, "backend": be},
+                                                  "sig": h(["glpk", msg3.split(':')[0][:40], m, n, w, i // 20])})
+                        continue
                 if k % 5 == 0:
                     # non-initial state: neighbouring continuum aligned before, turned into this one by a mutator
                     warm = {"recipe": recipe if (k // 20) % 2 == 0 else {"k": "pos", "de": 0.35},
@@ -325,5 +338,5 @@ def replay(case):
     spec, recipe, w = case["spec"], case["recipe"], case["w"]
     m = sum(len(us) for _, us in spec["annotators"])
     opt = optimum(spec, recipe) if m <= 14 else None
-    msg = judge(spec, recipe, w, fast_case(spec, recipe, w, warm=case.get("warm")), opt)
+    msg = judge(spec, recipe, w, fast_case(spec, recipe, w, warm=case.get("warm"), backend=case.get("backend", "cbc")), opt)
     return [{"msg": msg, "case": case}] if msg else []
